@@ -87,3 +87,81 @@ func (r *Report) SameNameFields(key, fnKey, dst, src string, renamed map[string]
 		r.Unres(k+"|count", d, fmt.Sprintf("%d mapped fields found, expected >= %d", n, minFields))
 	}
 }
+
+// CtorFaithful: a constructor NewX(p1..pn) X{...} stores in every field exactly one of its parameters (through
+// conversions) or a constant - it does not transform what it is given. Seed C18-5 made NewGroupTransition truncate the
+// execution time to whole seconds, so the stored time was no longer the proposed and validated one.
+func (r *Report) CtorFaithful(key string, fnKeys ...string) {
+	w := r.W
+	for _, fk := range fnKeys {
+		fn := w.Fn(fk)
+		d := fk + " stores its parameters (or constants) unchanged in the fields of the value it builds"
+		k := key + "|" + fk
+		if fn == nil {
+			r.Unres(k, d, "function not found")
+			continue
+		}
+		w.FuncsAnalysed[fn] = true
+		n := 0
+		bad := ""
+		for _, b := range fn.Blocks {
+			for _, in := range b.Instrs {
+				st, ok := in.(*ssa.Store)
+				if !ok {
+					continue
+				}
+				fa, ok := st.Addr.(*ssa.FieldAddr)
+				if !ok {
+					continue
+				}
+				if _, isAlloc := fa.X.(*ssa.Alloc); !isAlloc {
+					continue
+				}
+				n++
+				w.SitesExamined++
+				v := seeThrough(st.Val)
+				if _, isParam := v.(*ssa.Parameter); isParam {
+					continue
+				}
+				if _, isConst := v.(*ssa.Const); isConst {
+					continue
+				}
+				if bad == "" {
+					bad = fmt.Sprintf("%s = %s at %s", fieldName(fa.X.Type(), fa.Field), clip(Render(st.Val).String(), 100), w.posOr(st.Pos(), fn))
+				}
+			}
+		}
+		switch {
+		case n == 0:
+			r.Unres(k, d, "no field stores found (not a literal constructor any more)")
+		case bad != "":
+			r.Bad(k, d, w.FnPos(fn), "transforms an input: "+bad)
+		default:
+			r.OK(k, d, w.FnPos(fn), fmt.Sprintf("%d fields", n))
+		}
+	}
+}
+
+// dumpFaithfulCtors lists the New* functions of the repo's types packages that are faithful today (maintenance).
+func dumpFaithfulCtors(w *World) {
+	for _, fk := range sortedKeys(w.Funcs) {
+		i := strings.LastIndexByte(fk, '.')
+		if i < 0 || !strings.HasPrefix(fk[i+1:], "New") || !strings.Contains(fk, "/types.") || strings.Contains(fk, "$") {
+			continue
+		}
+		fn := w.Funcs[fk]
+		if len(fn.Blocks) != 1 || !inRepoScope(fn) {
+			continue
+		}
+		rep := NewReport("ZZ", "quick", w)
+		rep.Rule("ZZ", "x")
+		rep.CtorFaithful("x", fk)
+		ok := true
+		for _, o := range rep.Obls {
+			if o.status != Discharged {
+				ok = false
+			}
+		}
+		fmt.Println(ok, fk)
+	}
+}
